@@ -29,6 +29,7 @@ type PtrShape struct {
 	Cell *Cell
 	Ref  Term
 	Idx  Term
+	View Term // slice offset: the element is number View+Idx of the backing array (reads go through a shifted view so that quantifier triggers contain no arithmetic)
 	Root types.Type
 	Off  int
 	Typ  types.Type
@@ -618,4 +619,19 @@ func (c *Ctx) slicedQuery(o *Obligation, withModel bool) string {
 		b.WriteString("))\n")
 	}
 	return b.String()
+}
+
+// shiftView returns the 0-based view of a content array at offset off.
+func (c *Ctx) shiftView(arr Term, off Term) Term {
+	if off.S == "0" || off.S == "" {
+		return arr
+	}
+	es := elemSort(arr.Sort)
+	fn := "shift_" + smtSym(string(es))
+	if !c.declared[fn] {
+		c.declared[fn] = true
+		c.emit(fmt.Sprintf("(declare-fun %s (%s Int) %s)", fn, arr.Sort, arr.Sort))
+		c.emit(fmt.Sprintf("(assert (forall ((a %s) (o Int) (j Int)) (! (= (select (%s a o) j) (select a (+ o j))) :pattern ((select (%s a o) j)))))", arr.Sort, fn, fn))
+	}
+	return app(arr.Sort, fn, arr, off)
 }
